@@ -111,6 +111,15 @@ def r192(db, ctx, F):
                 if not le_ok:
                     ctx.fail('R19.2', f, 'Vec::truncate on the row vector', f'truncate({X.show(nl)}) is not dominated by {X.show(nl)} <= len: the resulting length is min(len, n), not n')
                     continue
+            elif meth == 'set_len' and not f.path.endswith('::uninitialized'):
+                # set_len(n) exposes rows n_old..n without initialising them: outside the one constructor whose callers overwrite every row
+                # (R6.6) it may only shrink — growth has to go through resize_with(.., Default::default) so that new rows hold the default value
+                nl = norm(R.operand(t['args'][1]))
+                rels_ = G.relations(f, R, bi)
+                if G.holds(rels_, 'le', lambda e: norm(e) == nl, lambda e: common.is_len_of(e, recv)) is None:
+                    ctx.fail('R19.2', f, 'Vec::set_len on the row vector',
+                             f'set_len({X.show(nl)}) can grow the row vector: the re-exposed rows keep stale or uninitialised contents instead of the default value', span=t['span'])
+                    continue
             elif meth not in ('resize_with', 'set_len'):
                 ctx.fail('R19.2', f, f'Vec::{meth} on the row vector', 'reason=unrecognised-shape: length change through a method whose new length is not an explicit operand')
                 continue
@@ -243,6 +252,16 @@ def r193(db, ctx, F):
                 if im['derived']:
                     n += 1
                     ctx.ok('R19.3', adt, f'{tr.rsplit("::", 1)[-1]} is #[derive]d', ['automatically_derived'])
+                elif tr == 'core::cmp::Eq' and not im.get('items'):
+                    n += 1
+                    ctx.ok('R19.3', adt, 'Eq is a marker impl (no methods): equality is what PartialEq defines', ['empty impl'])
+                elif tr == 'core::cmp::PartialEq' and adt == DM:
+                    why = handwritten_eq(db, im, F)
+                    if why is None:
+                        n += 1
+                        ctx.ok('R19.3', adt, 'hand-written PartialEq compares the row counts and every pair of corresponding rows', ['row count && all rows'])
+                    else:
+                        ctx.fail('R19.3', adt, f'impl {tr}', why)
                 else:
                     ctx.fail('R19.3', adt, f'impl {tr}', 'hand-written impl: cannot show it depends on the logical cells only (reason=unrecognised-shape)')
     row = db.adts.get(F['row_adt'])
@@ -251,6 +270,55 @@ def r193(db, ctx, F):
     else:
         ctx.fail('R19.3', F['row_adt'], 'row fields', 'row type has more than one field')
     ctx.floor('R19.3', n, 6, 'derived impls')
+
+
+def handwritten_eq(db, im, F):
+    """None when a hand-written `PartialEq::eq` of the matrix is `same row count && every pair of corresponding rows equal`
+    (or compares the row vectors themselves, which does both); else the reason."""
+    from lm import reduce as RD
+    path = (im.get('items') or {}).get('eq')
+    f = db.fns.get(path) if path else None
+    if f is None:
+        return 'reason=unrecognised-shape: eq body not found'
+    if (im.get('items') or {}).get('ne'):
+        return 'reason=unrecognised-shape: ne is overridden as well'
+    R = X.Rec(f, db, ite=True)
+    C = RD.RCanon(db, f, R)
+    e = common.return_expr_single_path_allow(f)
+    if e is None:
+        d = f.defs().get(0, [])
+        e = R.if_converted(0, 0) if len(d) == 2 else None
+    if e is None:
+        return 'reason=unrecognised-shape: eq has several return paths'
+    alts = G.expr_alternatives(norm(e), True)
+    if len(alts) != 1:
+        return 'reason=unrecognised-shape: eq is not a conjunction'
+    count = lambda x, p_: x in (('call', 'lightmotif::dense::DenseMatrix::rows', (('p', p_),)), ('fld', ('p', p_), F['rows'])) or \
+        common.is_len_of(x, ('fld', ('p', p_), F['data']))
+    has_len = has_vec = has_all = False
+    for r in alts[0]:
+        if r[0] == 'eq':
+            a_, b_ = norm(r[1]), norm(r[2])
+            if (count(a_, 1) and count(b_, 2)) or (count(a_, 2) and count(b_, 1)):
+                has_len = True
+            if {a_, b_} == {('fld', ('p', 1), F['data']), ('fld', ('p', 2), F['data'])}:
+                has_vec = True          # Vec == Vec compares the lengths and every element
+        if r[0] == 'true' and isinstance(r[1], tuple) and r[1][0] == 'call' and r[1][1].endswith('Iterator::all') and len(r[1][2]) == 2:
+            L = RD._fresh()
+            el = C.elem_of(r[1][2][0], L)
+            body = RD.apply_fn(db, r[1][2][1], [el[0]]) if el is not None else None
+            if body is not None and el[0][0] == 'agg' and len(el[0][2]) == 2:
+                x_, y_ = el[0][2]
+                rel = G.as_relation(C.canon(body), True)
+                rows_of = lambda v, p_: v[0] == 'at' and v[2] == ('pos', L) and norm(v[1]) in (('p', p_), ('fld', ('p', p_), F['data']))
+                if rel[0] == 'eq' and {C.canon(rel[1]), C.canon(rel[2])} == {x_, y_} and ((rows_of(x_, 1) and rows_of(y_, 2)) or (rows_of(x_, 2) and rows_of(y_, 1))):
+                    has_all = True
+    if has_vec or (has_len and has_all):
+        return None
+    if has_all:
+        return ('equality compares the rows pairwise but not the row counts: `zip` stops at the shorter matrix, so a matrix equals every matrix it is a '
+                'row-prefix of (an empty matrix equals everything)')
+    return 'reason=unrecognised-shape: hand-written eq is neither `rows == rows && all rows equal` nor a comparison of the row vectors'
 
 
 def r194(db, ctx, F):
